@@ -1,3 +1,267 @@
-/-! C19 property theorems — stub (not built yet). -/
+import TTModel.C19_CLI
+import TTProofs.Lemmas.C19_CLI
+import Mathlib.Data.List.Nodup
+/-!
+# C19 — the logic of the CLI: Jacobian collection and the constraint → transform rewriting
+
+The theorems are about `TT.C19.createJacobians` / `makeUnconstrained`, which the harness ties to
+`torchtree/cli/jacobians.py` and `torchtree/cli/utils.py` by replaying every real call the CLI
+builders make (thousands of recorded inputs) on them.  They hold for every JSON value and every
+interpretation `CliNum ν` of the numbers.  The exploration of the option space itself is NOT a
+theorem (see the manifest: partial).
+-/
 namespace TTProps.C19
+open TT.C13 TT.C13.Json TT.C19
+
+variable {ν : Type} [CliNum ν]
+
+/-! ## create_jacobians -/
+
+/-- **jacobians_exactly_once**: whenever `create_jacobians` returns, its result is exactly the
+list — in document order — of the ids of those dicts, occurring ANYWHERE in the specification
+(any depth, inside lists, under any key), whose type is `TransformedParameter` and which are not
+an `AffineTransform` with `scale == 1.0`: one entry per such object literal, and nothing else. -/
+theorem jacobians_exactly_once (j : Json ν) (ids : List (Json ν))
+    (h : createJacobians j = some ids) :
+    ids = (subvalues j).filterMap jacIdOf := by
+  rw [createJacobians_eq_collect] at h
+  exact collect_eq_filterMap _ _ h
+
+/-- membership form: `i` is listed iff it is the id of an included TransformedParameter literal
+occurring somewhere in `j` -/
+theorem jacobians_mem_iff (j : Json ν) (ids : List (Json ν)) (h : createJacobians j = some ids)
+    (i : Json ν) :
+    i ∈ ids ↔ ∃ kvs, Json.obj kvs ∈ subvalues j ∧ tpEntry kvs = some [i] := by
+  rw [jacobians_exactly_once j ids h, List.mem_filterMap]
+  constructor
+  · rintro ⟨v, hv, hi⟩
+    cases v with
+    | obj kvs =>
+      refine ⟨kvs, hv, ?_⟩
+      simp only [jacIdOf, entryOf] at hi
+      split at hi
+      · rename_i i' he; cases hi; exact he
+      · cases hi
+    | _ => simp [jacIdOf, entryOf] at hi
+  · rintro ⟨kvs, hv, he⟩
+    exact ⟨.obj kvs, hv, by simp [jacIdOf, entryOf, he]⟩
+
+/-- the id of ANY TransformedParameter literal (included or not) -/
+def tpIdOf : Json ν → Option (Json ν)
+  | .obj kvs => if strIs "TransformedParameter" (lookup "type" kvs) then lookup "id" kvs else none
+  | _ => none
+
+theorem jacIdOf_refines (v : Json ν) (i : Json ν) (h : jacIdOf v = some i) : tpIdOf v = some i := by
+  cases v with
+  | obj kvs =>
+    simp only [jacIdOf, entryOf] at h
+    split at h
+    · rename_i i' he
+      cases h
+      rcases tpEntry_shape kvs [i] he with h0 | ⟨i2, h1, hid⟩
+      · cases h0
+      · cases h1
+        have ht : strIs "TransformedParameter" (lookup "type" kvs) = true := by
+          by_contra hn
+          simp [tpEntry, hn] at he
+        simp [tpIdOf, ht, hid]
+    · cases h
+  | _ => simp [jacIdOf, entryOf] at h
+
+theorem filterMap_sublist_of_refines {α β : Type} (f g : α → Option β)
+    (hfg : ∀ a b, f a = some b → g a = some b) :
+    ∀ l : List α, (l.filterMap f).Sublist (l.filterMap g) := by
+  intro l
+  induction l with
+  | nil => simp
+  | cons a l ih =>
+    cases hf : f a with
+    | none =>
+      cases hg : g a with
+      | none => simpa [List.filterMap_cons, hf, hg] using ih
+      | some b => simpa [List.filterMap_cons, hf, hg] using ih.cons b
+    | some b =>
+      have hg := hfg a b hf
+      simpa [List.filterMap_cons, hf, hg] using ih.cons_cons b
+
+/-- given distinct ids of the TransformedParameter literals, every Jacobian id is listed exactly
+once -/
+theorem jacobians_nodup (j : Json ν) (ids : List (Json ν)) (h : createJacobians j = some ids)
+    (hdistinct : ((subvalues j).filterMap tpIdOf).Nodup) : ids.Nodup := by
+  rw [jacobians_exactly_once j ids h]
+  exact hdistinct.sublist (filterMap_sublist_of_refines _ _ jacIdOf_refines _)
+
+/-- a toy interpretation of the numbers for the concrete examples (log/logit = identity) -/
+instance instCliNumInt : CliNum Int where
+  truthy x := x != 0
+  isZero x := x == 0
+  isOne x := x == 1
+  pos x := x > 0
+  eq a b := a == b
+  zeroF := 0
+  oneF := 1
+  zeroI := 0
+  pred x := x - 1
+  toNat x := if x ≥ 0 then some x.toNat else none
+  sub a b := a - b
+  log x := x
+  logit x := x
+  stickInv xs := xs.dropLast
+
+/-- non-vacuity: a TransformedParameter nested in a list under a dict is found, the
+AffineTransform with scale 1 is left out, the nested child of the latter is still visited -/
+example : (match createJacobians (ν := Int)
+    (.arr [.obj [("id", .str "joint"), ("type", .str "JointDistributionModel"),
+      ("distributions", .arr [
+        .obj [("id", .str "a"), ("type", .str "TransformedParameter"),
+              ("transform", .str "torch.distributions.ExpTransform"), ("x", .str "a.unres")],
+        .obj [("id", .str "b"), ("type", .str "TransformedParameter"),
+              ("transform", .str "torch.distributions.AffineTransform"),
+              ("parameters", .obj [("loc", .num 3), ("scale", .num 1)]),
+              ("x", .obj [("id", .str "b.unshifted"), ("type", .str "TransformedParameter"),
+                          ("transform", .str "torch.distributions.ExpTransform"), ("x", .str "u")])]])]]) with
+    | some [.str "a", .str "b.unshifted"] => true
+    | _ => false) = true := by
+  decide +kernel
+
+/-! ## make_unconstrained
+
+`unconstrain_covers` is stated case by case, as the exact value `make_unconstrained` computes for a
+`Parameter` dict under each kind of annotation (the transform names are torch's: Sigmoid has range
+(0,1), Exp (0,∞), Affine(loc,1)∘Exp (loc,∞), StickBreaking the simplex — the annotated sets). -/
+
+/-- **unit interval**: `@lower: 0, @upper: 1`, initial value a list → `SigmoidTransform` over a
+fresh `id.unres` carrying `logit(initial)`; `id` is reported, the child goes to the sampler. -/
+theorem unconstrain_covers_unit_interval (kvs : List (String × Json ν)) (lo up : ν) (i : String)
+    (xs : List (Json ν))
+    (hlo : lookup "@lower" kvs = some (.num lo)) (hup : lookup "@upper" kvs = some (.num up))
+    (h0 : CliNum.isZero lo = true) (h1 : CliNum.isOne up = true)
+    (hid : lookup "id" kvs = some (.str i)) (ht : lookup "tensor" kvs = some (.arr xs)) :
+    paramCase kvs =
+      (mapNum CliNum.logit (.arr xs)).map fun t =>
+        let x : Json ν := .obj [("id", .str (i ++ ".unres")), ("type", .str "Parameter"), ("tensor", t)]
+        ⟨.obj (rewrittenAs kvs "torch.distributions.SigmoidTransform" x []), [x], [.str i]⟩ := by
+  simp only [paramCase, hlo, hup, h0, h1, Bool.and_self, if_true, sigmoidCase, childOf, idPlus, hid, ht]
+  cases hm : mapNum CliNum.logit (.arr xs) <;> simp [hm, bind, Option.bind, pure]
+
+/-- **unit interval, `full` form** (`tensor` a scalar replicated `full` times): the child keeps the
+`full` shape and carries `logit(scalar)`; `full` is removed from the parent. -/
+theorem unconstrain_covers_unit_interval_full (kvs : List (String × Json ν)) (lo up v : ν) (i : String)
+    (full : Json ν)
+    (hlo : lookup "@lower" kvs = some (.num lo)) (hup : lookup "@upper" kvs = some (.num up))
+    (h0 : CliNum.isZero lo = true) (h1 : CliNum.isOne up = true)
+    (hid : lookup "id" kvs = some (.str i)) (ht : lookup "tensor" kvs = some (.num v))
+    (hf : lookup "full" kvs = some full) :
+    paramCase kvs =
+      let x : Json ν := .obj [("id", .str (i ++ ".unres")), ("type", .str "Parameter"),
+                               ("tensor", .num (CliNum.logit v)), ("full", full)]
+      some ⟨.obj (rewrittenAs kvs "torch.distributions.SigmoidTransform" x ["full"]), [x], [.str i]⟩ := by
+  simp [paramCase, hlo, hup, h0, h1, sigmoidCase, childOf, idPlus, hid, ht, hf, hasKey, mapNum,
+    scalarOnly, bind, Option.bind, pure]
+
+/-- **lower bound 0** (`@lower` not positive, no `@upper`), plain initial value → `ExpTransform`
+over `id.unres` carrying `log(initial)`. -/
+theorem unconstrain_covers_positive (kvs : List (String × Json ν)) (lo : ν) (i : String) (tensor : Json ν)
+    (hlo : lookup "@lower" kvs = some (.num lo)) (hup : lookup "@upper" kvs = none)
+    (hpos : CliNum.pos lo = false)
+    (hid : lookup "id" kvs = some (.str i)) (ht : lookup "tensor" kvs = some tensor)
+    (hf : lookup "full" kvs = none) (hfl : lookup "full_like" kvs = none) :
+    paramCase kvs =
+      (mapNum CliNum.log tensor).map fun t =>
+        let x : Json ν := .obj [("id", .str (i ++ ".unres")), ("type", .str "Parameter"), ("tensor", t)]
+        ⟨.obj (rewrittenAs kvs "torch.distributions.ExpTransform" x []), [x], [.str i]⟩ := by
+  simp only [paramCase, hlo, hup, hpos, expCase, childOf, idPlus, hid, ht, hasKey, hf, hfl]
+  cases hm : mapNum CliNum.log tensor <;> simp [hm, bind, Option.bind, pure]
+
+/-- **lower bound 0, `full` form** -/
+theorem unconstrain_covers_positive_full (kvs : List (String × Json ν)) (lo v : ν) (i : String) (full : Json ν)
+    (hlo : lookup "@lower" kvs = some (.num lo)) (hup : lookup "@upper" kvs = none)
+    (hpos : CliNum.pos lo = false)
+    (hid : lookup "id" kvs = some (.str i)) (ht : lookup "tensor" kvs = some (.num v))
+    (hf : lookup "full" kvs = some full) :
+    paramCase kvs =
+      let x : Json ν := .obj [("id", .str (i ++ ".unres")), ("type", .str "Parameter"),
+                               ("tensor", .num (CliNum.log v)), ("full", full)]
+      some ⟨.obj (rewrittenAs kvs "torch.distributions.ExpTransform" x ["full"]), [x], [.str i]⟩ := by
+  simp [paramCase, hlo, hup, hpos, expCase, childOf, idPlus, hid, ht, hf, hasKey, mapNum, scalarOnly,
+    bind, Option.bind, pure]
+
+/-- **positive lower bound** `@lower: c > 0`: `AffineTransform(loc = c, scale = 1.0)` over
+`id.unshifted = initial − c`, which (lower bound `0.0`) is in turn an `ExpTransform` over
+`id.unshifted.unres = log(initial − c)`.  (As coded, the id REPORTED is `id.unshifted`.) -/
+theorem unconstrain_covers_lower_bound (kvs : List (String × Json ν)) (lo : ν) (i : String) (tensor : Json ν)
+    (hlo : lookup "@lower" kvs = some (.num lo)) (hup : lookup "@upper" kvs = none)
+    (hpos : CliNum.pos lo = true)
+    (hid : lookup "id" kvs = some (.str i)) (ht : lookup "tensor" kvs = some tensor) :
+    paramCase kvs =
+      (mapNum (fun y => CliNum.sub y lo) tensor).bind fun t =>
+        (mapNum CliNum.log t).map fun u =>
+          let xu : Json ν := .obj [("id", .str (i ++ ".unshifted" ++ ".unres")), ("type", .str "Parameter"), ("tensor", u)]
+          let shifted : List (String × Json ν) :=
+            [("id", .str (i ++ ".unshifted")), ("type", .str "Parameter"), ("tensor", t), ("@lower", .num CliNum.zeroF)]
+          let xs : Json ν := .obj (rewrittenAs shifted "torch.distributions.ExpTransform" xu [])
+          ⟨.obj (delKey "tensor" (setKey "x" xs
+              (setKey "parameters" (.obj [("loc", .num lo), ("scale", .num CliNum.oneF)])
+                (setKey "transform" (.str "torch.distributions.AffineTransform")
+                  (setKey "type" (.str "TransformedParameter") kvs))))),
+           [xu], [.str (i ++ ".unshifted")]⟩ := by
+  simp only [paramCase, hlo, hup, hpos, if_true, affineCase, idPlus, hid, ht]
+  cases h1 : mapNum (fun y => CliNum.sub y lo) tensor with
+  | none => simp [h1, bind, Option.bind]
+  | some t =>
+    simp only [h1, bind, Option.bind, expCase, childOf, idPlus, lookup, hasKey]
+    cases h2 : mapNum CliNum.log t with
+    | none =>
+      cases t <;> simp_all [bind, Option.bind, pure, lookup, hasKey]
+    | some u =>
+      cases t <;> simp_all [bind, Option.bind, pure, lookup, hasKey]
+
+/-- **fixed** parameters (`@lower == @upper`, not the unit interval) are left untouched and are NOT
+handed to the sampler. -/
+theorem unconstrain_fixed_untouched (kvs : List (String × Json ν)) (lo up : ν)
+    (hlo : lookup "@lower" kvs = some (.num lo)) (hup : lookup "@upper" kvs = some (.num up))
+    (hunit : (CliNum.isZero lo && CliNum.isOne up) = false) (heq : CliNum.eq lo up = true) :
+    paramCase kvs = some ⟨.obj kvs, [], []⟩ := by
+  simp [paramCase, hlo, hup, hunit, heq]
+
+/-- an interval other than (0,1) is refused (`NotImplementedError`) rather than mis-translated -/
+theorem unconstrain_other_interval_refused (kvs : List (String × Json ν)) (lo up : ν)
+    (hlo : lookup "@lower" kvs = some (.num lo)) (hup : lookup "@upper" kvs = some (.num up))
+    (hunit : (CliNum.isZero lo && CliNum.isOne up) = false) (hne : CliNum.eq lo up = false) :
+    paramCase kvs = none := by
+  simp [paramCase, hlo, hup, hunit, hne]
+
+/-- an unannotated parameter is handed to the sampler as it is -/
+theorem unconstrain_plain (kvs : List (String × Json ν)) (i : Json ν)
+    (hlo : lookup "@lower" kvs = none) (hs : lookup "@simplex" kvs = none)
+    (hid : lookup "id" kvs = some i) :
+    paramCase kvs = some ⟨.obj kvs, [.obj kvs], [i]⟩ := by
+  simp [paramCase, hlo, hs, hid]
+
+/-- everything that is not a `Parameter` dict is traversed (lists element-wise, dicts value-wise,
+at any depth), and the reported lists are the concatenation of the parts' lists in document order -/
+theorem unconstrain_traverses_list (x : Json ν) (xs : List (Json ν)) :
+    makeUnconstrained (.arr (x :: xs)) =
+      match makeUnconstrained x, makeUnconstrained (.arr xs) with
+      | some r, some rs =>
+        (match rs.json with
+         | .arr ys => some ⟨.arr (r.json :: ys), r.unres ++ rs.unres, r.params ++ rs.params⟩
+         | _ => none)
+      | _, _ => none := by
+  simp only [makeUnconstrained, muList]
+  cases makeUnconstrained x <;> cases muList xs <;> simp [Option.map]
+
+/-- non-vacuity: the three annotation kinds in one nested specification (toy numbers: log/logit
+are the identity, so only the bookkeeping is visible) -/
+example : (match makeUnconstrained (ν := Int)
+    (.arr [.obj [("id", .str "m"), ("type", .str "Model"),
+      ("a", .obj [("id", .str "p"), ("type", .str "Parameter"), ("tensor", .arr [.num 5]), ("@lower", .num 0)]),
+      ("b", .arr [.obj [("id", .str "q"), ("type", .str "Parameter"), ("tensor", .arr [.num 2]),
+                        ("@lower", .num 0), ("@upper", .num 1)],
+                  .obj [("id", .str "r"), ("type", .str "Parameter"), ("tensor", .arr [.num 7]),
+                        ("@lower", .num 3), ("@upper", .num 3)]])]]) with
+    | some ⟨_, [_, _], [.str "p", .str "q"]⟩ => true
+    | _ => false) = true := by
+  decide +kernel
+
 end TTProps.C19
